@@ -3,7 +3,7 @@
 # files it touches (plus C10), in scratch worktrees of /repo; one JSON line each.  No alarm is expected anywhere.
 cd "$(dirname "$0")/.."
 of=$1; shift
-ids=${@:-$(ls benign | grep '^C')}
+ids=${@:-$(ls benign | grep '^C.*-b2'; ls benign | grep '^C.*-b1')}          # the newer wave first
 for n in $ids; do
-  tools/benigntest.py benign/$n/patch.diff --checks auto >> $of 2>>$of.err
+  tools/benigntest.py benign/$n/patch.diff --checks auto $BENIGN_OPTS >> $of 2>>$of.err
 done
